@@ -42,9 +42,36 @@ theorem c07_gate_table_agrees :
   intro g z y
   exact h.2.2.2.2.2 g (mem_allGates g) z (mem_allCls z) y (mem_allCls y)
 
-/-- Which payloads `_apply_gate_logic` renders (`str()`, f-string) is, on every gate logic × verdict × verdict row the
-    extractor evaluates on the real code with tracer payloads, what the model's `renders` says — complete over
-    gate × class × class.  (A rendered payload whose `__str__` raises makes the gate raise: `renderFails`, `runP`.) -/
+/-- E2, evaluated on the real code on every run: what `_apply_gate_logic` decides does not depend on whether the
+    payloads of the two verdicts can be rendered.  On every gate logic × verdict × verdict row the real gate was
+    called again with payloads whose `__str__` raises (the executor's, the assessor's, both): it never raised and
+    returned the very decision (`success`, `action`, `blocked`, token attached) the model's `applyGate` makes —
+    complete over gate × class × class.  (`unrenderable` holds `none` for a row on which the gate raised or decided
+    differently; the defect repaired in /repo — `str(payload)` / an f-string outside any handler — puts `none` there.) -/
+theorem c07_gate_decides_whatever_the_payloads :
+    (∀ r ∈ GateTable.unrenderable, r.2.2.2 = some (applyGate r.1 (classify r.2.1) (classify r.2.2.1))) ∧
+    (∀ (g : Gate) (z y : Cls), ∃ r ∈ GateTable.unrenderable, r.1 = g ∧ classify r.2.1 = z ∧ classify r.2.2.1 = y) := by
+  have h : (∀ r ∈ GateTable.unrenderable, r.2.2.2 = some (applyGate r.1 (classify r.2.1) (classify r.2.2.1))) ∧
+      (∀ g ∈ allGates, ∀ z ∈ allCls, ∀ y ∈ allCls,
+        ∃ r ∈ GateTable.unrenderable, r.1 = g ∧ classify r.2.1 = z ∧ classify r.2.2.1 = y) := by
+    decide +kernel
+  refine ⟨h.1, ?_⟩
+  intro g z y
+  exact h.2 g (mem_allGates g) z (mem_allCls z) y (mem_allCls y)
+
+/-- E2, evaluated on the real `run` on every run: an agent `Exception` whose `__str__` raises — raised by the
+    executor, or by the assessor — is answered with the blocked, unsuccessful ERROR result and counted once as a
+    failure (`handlerRendersSafely`); with the console on (`silent=False`) a SUCCESS whose executor payload cannot be
+    rendered is returned to the caller (`printRendersSafely`).  This is why the model's `run` treats `Resp.excU` like
+    `Resp.exc` and why the driver runs `runP true` / `deliver … false`. -/
+theorem c07_current_source_renders_safely :
+    GateTable.handlerRendersSafely = true ∧ GateTable.printRendersSafely = true := by
+  decide
+
+/-- Which payloads `_apply_gate_logic` renders (`str()`, f-string — through `_describe` since the fix) is, on every
+    gate logic × verdict × verdict row the extractor evaluates on the real code with tracer payloads, what the model's
+    `renders` says — complete over gate × class × class.  (`renders` only matters for the pre-fix shape `runP false`,
+    where a rendered payload whose `__str__` raises made the gate raise: `renderFails`.) -/
 theorem c07_renders_table_agrees :
     (∀ r ∈ GateTable.rendered, renders r.1 (classify r.2.1) (classify r.2.2.1) = (r.2.2.2.1, r.2.2.2.2)) ∧
     (∀ (g : Gate) (z y : Cls), ∃ r ∈ GateTable.rendered, r.1 = g ∧ classify r.2.1 = z ∧ classify r.2.2.1 = y) := by
@@ -116,16 +143,12 @@ theorem c07_unblocked_only_if_gate_satisfied (cfg : Cfg) (H : Hashes) (s : State
     unfold consultOut at hr
     cases zr with
     | exc => simp [errorResult] at hr; subst hr; simp at hb
-
-    | excU => simp at hr
-
+    | excU => simp [errorResult] at hr; subst hr; simp at hb
     | excB => simp at hr
     | ret z =>
       cases yr with
       | exc => simp [errorResult] at hr; subst hr; simp at hb
-
-      | excU => simp at hr
-
+      | excU => simp [errorResult] at hr; subst hr; simp at hb
       | excB => simp at hr
       | ret y =>
         cases hp : p.enc <;> simp [hp] at hr
@@ -138,9 +161,9 @@ theorem c07_unblocked_only_if_gate_satisfied (cfg : Cfg) (H : Hashes) (s : State
   · rw [h] at hr; simp at hr
 
 /-- Any agent exception — of whatever kind: an ordinary `Exception`, one that cannot even be rendered as text, a
-    `BaseException` — yields a blocked reply or no reply at all (unless an earlier reply for the same prompt is
-    served from the cache, in which case no agent is asked): a reply that comes back and is not cached is blocked,
-    unsuccessful and carries no token. -/
+    `BaseException` — never lets anything pass (unless an earlier reply for the same prompt is served from the
+    cache, in which case no agent is asked): a reply that comes back and is not cached is blocked, unsuccessful
+    and carries no token. -/
 theorem c07_exception_blocks (cfg : Cfg) (H : Hashes) (s : State) (p : Prompt) (zr yr : Resp)
     (hexc : (∀ z, zr ≠ .ret z) ∨ (∀ y, yr ≠ .ret y)) (r : Result) (hr : (run cfg H s p zr yr).2.result = some r)
     (hc : r.cached = false) : r.blocked = true ∧ r.success = false ∧ r.token = none := by
@@ -152,12 +175,37 @@ theorem c07_exception_blocks (cfg : Cfg) (H : Hashes) (s : State) (p : Prompt) (
   · rw [h] at hr; simp at hr; subst hr; simp at hc
   · rw [h] at hr; simp at hr
 
-/-- Every request with an encodable prompt whose agents answer or raise an `Exception` that can be rendered gets
-    a reply; a prompt that cannot be encoded (lone surrogate: `run` raises UnicodeEncodeError) never gets a reply
-    that is not blocked. -/
+/-- "Any agent exception yields blocked", at full strength: whenever an agent that is actually consulted raises an
+    `Exception` — the executor, or the assessor after the executor answered; whether or not the exception can be
+    rendered as text (`exc`, `excU`) — the request is answered, and the answer is the blocked, unsuccessful ERROR
+    reply without a token, whatever the other agent would have said, under every gate logic and in every state.
+    (The hypotheses only say that the agents ARE consulted: the breaker does not turn the request away, the cache
+    does not answer it, the prompt can be encoded for the cache key.  Tie to the source for the unrenderable case:
+    `c07_current_source_renders_safely`; a `BaseException` that is no `Exception` is not caught by `run` — listed
+    assumption, `c07_exception_blocks` still applies.) -/
+theorem c07_exception_yields_blocked (cfg : Cfg) (H : Hashes) (s : State) (p : Prompt) (zr yr : Resp)
+    (hexc : zr.caught = true ∨ ((∃ z, zr = .ret z) ∧ yr.caught = true))
+    (hk : (run cfg H s p zr yr).2.kind ≠ .circuitOpen) (hh : (run cfg H s p zr yr).2.kind ≠ .cacheHit)
+    (hp : p.enc = true) :
+    (run cfg H s p zr yr).2 = ⟨.agentExc, some errorResult⟩ ∧
+    errorResult.blocked = true ∧ errorResult.success = false ∧ errorResult.token = none := by
+  refine ⟨?_, rfl, rfl, rfl⟩
+  rcases run_out cfg H s p zr yr with h | h | ⟨_, e, _, _, h⟩ | ⟨hp', h⟩
+  · rw [h] at hk; simp at hk
+  · rw [h]
+    unfold consultOut
+    rcases hexc with hz | ⟨⟨z, rfl⟩, hy⟩
+    · cases zr <;> simp [Resp.caught] at hz <;> rfl
+    · cases yr <;> simp [Resp.caught] at hy <;> rfl
+  · rw [h] at hh; simp at hh
+  · rw [hp] at hp'; cases hp'
+
+/-- Every request with an encodable prompt gets a reply unless an agent that is consulted raises a `BaseException`
+    (which `run` does not catch) — in particular when an agent raises an `Exception` that cannot be rendered; a
+    prompt that cannot be encoded (lone surrogate: `run` raises UnicodeEncodeError) never gets a reply that is not
+    blocked. -/
 theorem c07_reply_or_nothing_passes (cfg : Cfg) (H : Hashes) (s : State) (p : Prompt) (zr yr : Resp) :
-    (p.enc = true → zr ≠ .excU → zr ≠ .excB → yr ≠ .excU → yr ≠ .excB →
-      (run cfg H s p zr yr).2.result.isSome = true) ∧
+    (p.enc = true → zr ≠ .excB → yr ≠ .excB → (run cfg H s p zr yr).2.result.isSome = true) ∧
     (p.enc = false → ∀ r, (run cfg H s p zr yr).2.result = some r → r.blocked = true ∧ r.token = none) := by
   rcases run_out cfg H s p zr yr with h | h | ⟨hp, e, _, _, h⟩ | ⟨hp, h⟩
   · rw [h]; simp [circuitOpenResult]
@@ -168,34 +216,16 @@ theorem c07_reply_or_nothing_passes (cfg : Cfg) (H : Hashes) (s : State) (p : Pr
   · rw [h]; simp [hp]
   · rw [h]; simp [hp]
 
-/-- OPEN FINDING C07-unprintable-agent-exception, the part that holds: an agent exception that can be rendered as
-    text is answered — unless the breaker or the cache answers first — with the blocked ERROR reply, whatever the
-    other agent would have said; and whatever an agent raises, a reply that is not blocked is never produced
-    (`c07_exception_blocks`). -/
-theorem c07_exception_yields_blocked_partial (cfg : Cfg) (H : Hashes) (s : State) (p : Prompt) (zr yr : Resp)
-    (hexc : zr = .exc ∨ ((∃ z, zr = .ret z) ∧ yr = .exc))
-    (hk : (run cfg H s p zr yr).2.kind ≠ .circuitOpen) (hh : (run cfg H s p zr yr).2.kind ≠ .cacheHit)
-    (hp : p.enc = true) :
-    (run cfg H s p zr yr).2 = ⟨.agentExc, some errorResult⟩ := by
-  rcases run_out cfg H s p zr yr with h | h | ⟨_, e, _, _, h⟩ | ⟨hp', h⟩
-  · rw [h] at hk; simp at hk
-  · rw [h]
-    unfold consultOut
-    rcases hexc with rfl | ⟨⟨z, rfl⟩, rfl⟩ <;> rfl
-  · rw [h] at hh; simp at hh
-  · rw [hp] at hp'; cases hp'
-
--- FULL (false on the current tree): every agent exception yields a blocked REPLY:
---   (∀ z, zr ≠ .ret z) → p.enc = true → ∃ r, (run cfg H s p zr yr).2.result = some r ∧ r.blocked = true
-/-- OPEN FINDING C07-unprintable-agent-exception, the witness: the executor raises an `Exception` whose `__str__`
-    raises.  The handler of `run` records the failure and then fails itself while formatting the block reason, so
-    `run` raises instead of answering with a blocked reply (nothing passes — but nothing comes back either, and
-    the same happens for a `BaseException`, which the handler does not catch at all). -/
-theorem c07_unprintable_exception_escapes_witness :
-    (run {} idHashes init ⟨1, true⟩ .excU (.ret .permit)).2 = ⟨.agentExc, none⟩ ∧
-    (run {} idHashes init ⟨1, true⟩ (.ret .execute) .excU).2 = ⟨.agentExc, none⟩ ∧
-    (run {} idHashes init ⟨1, true⟩ .excB (.ret .permit)).2 = ⟨.aborted, none⟩ ∧
-    (run {} idHashes init ⟨1, true⟩ .exc (.ret .permit)).2 = ⟨.agentExc, some errorResult⟩ := by decide
+/-- Witness for the shape BEFORE the fix (finding C07-unprintable-agent-exception, repaired in /repo): with the
+    exception formatted by a bare f-string (`runP false`) an executor — or assessor — `Exception` whose `__str__`
+    raises made the handler of `run` fail after recording the failure: `run` raised instead of answering; the code as
+    it is (`runP true`) answers the blocked ERROR reply.  A `BaseException` passes through either way. -/
+theorem c07_unprintable_exception_escaped_before_fix_witness :
+    (runP false {} idHashes init ⟨1, true⟩ ⟨.excU, true⟩ ⟨.ret .permit, true⟩).2 = ⟨.agentExc, none⟩ ∧
+    (runP false {} idHashes init ⟨1, true⟩ ⟨.ret .execute, true⟩ ⟨.excU, true⟩).2 = ⟨.agentExc, none⟩ ∧
+    (runP true {} idHashes init ⟨1, true⟩ ⟨.excU, true⟩ ⟨.ret .permit, true⟩).2 = ⟨.agentExc, some errorResult⟩ ∧
+    (runP true {} idHashes init ⟨1, true⟩ ⟨.ret .execute, true⟩ ⟨.excU, true⟩).2 = ⟨.agentExc, some errorResult⟩ ∧
+    (runP true {} idHashes init ⟨1, true⟩ ⟨.excB, true⟩ ⟨.ret .permit, true⟩).2 = ⟨.aborted, none⟩ := by decide
 
 /-- An approval token is attached only when the assessor permitted: a non-cached reply carries a token exactly
     when both agents answered, the assessor's verdict is PERMIT and the request is not blocked; the token is
@@ -210,16 +240,12 @@ theorem c07_token_iff_assessor_permits_and_unblocked (cfg : Cfg) (H : Hashes) (s
     unfold consultOut at hr
     cases zr with
     | exc => simp [errorResult] at hr; subst hr; simp
-
-    | excU => simp at hr
-
+    | excU => simp [errorResult] at hr; subst hr; simp
     | excB => simp at hr
     | ret z =>
       cases yr with
       | exc => simp [errorResult] at hr; subst hr; simp
-
-      | excU => simp at hr
-
+      | excU => simp [errorResult] at hr; subst hr; simp
       | excB => simp at hr
       | ret y =>
         cases hp : p.enc <;> simp [hp] at hr
@@ -271,16 +297,12 @@ theorem c07_history_sound (cfg : Cfg) (H : Hashes) (ops : List Op) :
         unfold consultOut at hr
         cases zr with
         | exc => simp [errorResult] at hr; subst hr; simp at hb
-
-        | excU => simp at hr
-
+        | excU => simp [errorResult] at hr; subst hr; simp at hb
         | excB => simp at hr
         | ret z =>
           cases yr with
           | exc => simp [errorResult] at hr; subst hr; simp at hb
-
-          | excU => simp at hr
-
+          | excU => simp [errorResult] at hr; subst hr; simp at hb
           | excB => simp at hr
           | ret y =>
             cases hp : p.enc <;> simp [hp] at hr
@@ -325,16 +347,12 @@ theorem c07_token_binds_request (cfg : Cfg) (H : Hashes) (hinj : ∀ a b, H.md5 
         unfold consultOut at hr
         cases zr with
         | exc => simp [errorResult] at hr; subst hr; simp at ht
-
-        | excU => simp at hr
-
+        | excU => simp [errorResult] at hr; subst hr; simp at ht
         | excB => simp at hr
         | ret z =>
           cases yr with
           | exc => simp [errorResult] at hr; subst hr; simp at ht
-
-          | excU => simp at hr
-
+          | excU => simp [errorResult] at hr; subst hr; simp at ht
           | excB => simp at hr
           | ret y =>
             cases hp : p.enc <;> simp [hp] at hr
@@ -833,22 +851,36 @@ theorem c07_callbacks_only_for_decided_requests (hk : Hooks) (t : Tally) (pf : B
 
 /-! ### payloads that cannot be rendered (`runP`) -/
 
-/-- Whatever the payloads of the agents' answers: a result that `runP` produces is the result `run` produces on
-    the same verdicts — every clause above transfers — and when rendering a payload fails inside the gate nothing
-    comes back at all (`run` raises out of `_apply_gate_logic`; nothing is cached either: `c08_unrenderable_payload_partial`). -/
-theorem c07_unrenderable_payload_nothing_extra_passes (cfg : Cfg) (H : Hashes) (s : State) (p : Prompt) (zr yr : RespP) :
-    (∀ r, (runP cfg H s p zr yr).2.result = some r → (run cfg H s p zr.resp yr.resp).2.result = some r) ∧
-    (renderFails cfg.gate zr yr = false → runP cfg H s p zr yr = run cfg H s p zr.resp yr.resp) := by
-  rcases runP_cases cfg H s p zr yr with h | ⟨hf, _, h⟩
-  · exact ⟨fun r hr => (by rw [h] at hr; exact hr), fun _ => h⟩
-  · exact ⟨fun r hr => (by rw [h] at hr; simp at hr), fun h' => (by rw [hf] at h'; cases h')⟩
+/-- "Any other combination yields blocked" — and a permitted one passes — WHATEVER the payloads of the two verdicts:
+    for every behaviour of the payloads (`payloadOk` of either response true or false), a request whose agents both
+    answer is decided by the gate on the two verdicts alone — the reply is `gateResult` for this prompt and these
+    verdicts (so every clause above applies to it), it is un-blocked exactly when the verdicts satisfy the configured
+    gate logic, and the state is the one `run` reaches on the same verdicts (result cached, breaker updated).
+    (`runP true` is the code as it is — tie: `c07_gate_decides_whatever_the_payloads`, evaluated on the real gate.) -/
+theorem c07_payloads_do_not_matter (cfg : Cfg) (H : Hashes) (s : State) (p : Prompt) (z y : Cls) (zOk yOk : Bool)
+    (hk : (run cfg H s p (.ret z) (.ret y)).2.kind ≠ .circuitOpen)
+    (hh : (run cfg H s p (.ret z) (.ret y)).2.kind ≠ .cacheHit) (hp : p.enc = true) :
+    runP true cfg H s p ⟨.ret z, zOk⟩ ⟨.ret y, yOk⟩ = run cfg H s p (.ret z) (.ret y) ∧
+    (runP true cfg H s p ⟨.ret z, zOk⟩ ⟨.ret y, yOk⟩).2.result = some (gateResult H cfg.gate p z y) ∧
+    ((gateResult H cfg.gate p z y).blocked = false ↔ criterion cfg.gate z y = true) := by
+  refine ⟨rfl, ?_, ?_⟩
+  · show (run cfg H s p (.ret z) (.ret y)).2.result = _
+    rcases run_out cfg H s p (.ret z) (.ret y) with h | h | ⟨_, e, _, _, h⟩ | ⟨hp', h⟩
+    · rw [h] at hk; simp at hk
+    · rw [h]; simp [consultOut, hp]
+    · rw [h] at hh; simp at hh
+    · rw [hp] at hp'; cases hp'
+  · simpa [gateResult] using c07_gate_sound cfg.gate z y
 
-/-- OPEN FINDING C07-unprintable-agent-exception, second witness: under AND logic an assessor BLOCK whose payload
-    cannot be rendered — the gate would answer BLOCKED — makes `run` raise instead (no reply); the same verdicts with a
-    renderable payload are answered BLOCKED. -/
-theorem c07_unrenderable_payload_escapes_witness :
-    (runP {} idHashes init ⟨1, true⟩ ⟨.ret .execute, true⟩ ⟨.ret .block, false⟩).2 = ⟨.raised, none⟩ ∧
-    (runP {} idHashes init ⟨1, true⟩ ⟨.ret .execute, true⟩ ⟨.ret .block, true⟩).2.result =
+/-- Witness for the shape BEFORE the fix (payload half of finding C07-unprintable-agent-exception, repaired in
+    /repo): with payloads rendered by bare `str()` / f-strings (`runP false`), under AND logic an assessor BLOCK whose
+    payload cannot be rendered — the gate would answer BLOCKED — made `run` raise instead (no reply); the code as it
+    is (`runP true`) answers BLOCKED, as it does for a renderable payload. -/
+theorem c07_unrenderable_payload_escaped_before_fix_witness :
+    (runP false {} idHashes init ⟨1, true⟩ ⟨.ret .execute, true⟩ ⟨.ret .block, false⟩).2 = ⟨.raised, none⟩ ∧
+    (runP true {} idHashes init ⟨1, true⟩ ⟨.ret .execute, true⟩ ⟨.ret .block, false⟩).2.result =
+      some ⟨true, .blocked, true, none, false⟩ ∧
+    (runP false {} idHashes init ⟨1, true⟩ ⟨.ret .execute, true⟩ ⟨.ret .block, true⟩).2.result =
       some ⟨true, .blocked, true, none, false⟩ := by decide
 
 /-! ### Non-vacuity: concrete requests and histories meeting the hypotheses -/
@@ -863,8 +895,15 @@ example : (run {} idHashes init (pr 5) (.ret .execute) (.ret .permit)).2.result
     (run { gate := .execPrio } idHashes init (pr 5) (.ret .execute) (.ret .other)).2.result
       = some ⟨true, .success, false, none, false⟩ := by decide
 
-/-- an exception of the assessor after the executor permitted (hypothesis of `c07_exception_blocks`) -/
-example : (run { gate := .or } idHashes init (pr 5) (.ret .permit) .exc).2.result = some errorResult := by decide
+/-- an exception of the assessor after the executor permitted (hypothesis of `c07_exception_blocks`; hypotheses
+    of `c07_exception_yields_blocked` for an exception that cannot be rendered, raised by the executor) -/
+example : (run { gate := .or } idHashes init (pr 5) (.ret .permit) .exc).2.result = some errorResult ∧
+    (run { gate := .or } idHashes init (pr 5) .excU (.ret .permit)).2.kind = .agentExc ∧
+    Resp.excU.caught = true := by decide
+
+/-- hypotheses of `c07_payloads_do_not_matter`: a fresh request on the initial state is neither turned away nor
+    answered by the cache -/
+example : (run {} idHashes init (pr 5) (.ret .failure) (.ret .permit)).2.kind = .gated .failure := by decide
 
 /-- a history with a cache hit whose verdict repeats the original although the agents would now answer
     differently (hypotheses of `c07_cached_verdict_identical` / `c07_token_binds_request` are met by `tr[2]`) -/
